@@ -452,6 +452,9 @@ def random_tier(ctx, npairs, stats):
                 stats["informational"] += 1
         if not v["agree"]:
             stats["random_drift"] += 1
+            if "random_drift_sample" not in stats:
+                stats["random_drift_sample"] = {"pair": lc["text"], "cfg": cfg_text(lc["cfg"]), "literals": lc["lit"],
+                                                "real": None if lc["rep"] is None else [[e["a"], e["p"]] for e in lc["rep"]]}
         for sig, desc, clause in viol:
             ctx.violation(sig, desc, {"kind": "random", "l": lc["l"], "r": lc["r"], "arrays": lc["cfg"]["arrays"], "aoh": lc["cfg"]["aoh"],
                                       "rules": lc["cfg"]["rules"], "keys": lc["cfg"]["keys"],
@@ -497,6 +500,7 @@ def run(ctx):
     rstats = collections.Counter()
     local = random_tier(ctx, 150 if ctx.quick else 2000, rstats)
     selftest = rstats.pop("binding_selftest")
+    rsample = rstats.pop("random_drift_sample", None)
     ctx.coverage["phase_s"] = {"tlc_models": round(t1 - t0, 1), "replay": round(t2 - t1, 1), "random_and_trace_validation": round(time.time() - t2, 1)}
     ctx.informational = tot["informational"] + rstats["informational"] + tot["outside_domain"] + rstats["outside_domain"]
     ex = next((lc for lc in local if lc["rep"]), None)
@@ -512,7 +516,7 @@ def run(ctx):
         "model_predicted_failures": {c: tot["predicted_" + c] for c in CLAUSES + ("crash",)},
         "mirrored_theorems_counterexample": mir["violated"] == "MirroredTheorems",
         "repaired_theorems_hold": True, "documents_changed_by_differ": tot["documents_changed_by_differ"],
-        "model_drift": tot["drift"], "model_drift_sample": sample, "random_model_drift": rstats["random_drift"],
+        "model_drift": tot["drift"], "model_drift_sample": sample, "random_model_drift": rstats["random_drift"], "random_model_drift_sample": rsample,
         "outside_domain": tot["outside_domain"] + rstats["outside_domain"],
         "per_path_config_evaluations": tot["per_path_config_evaluations"] + sum(1 for lc in local if lc["cfg"]["rules"] or lc["cfg"]["keys"]),
         "random_pairs_x_modes": rstats["random_evaluations"], "binding_selftest": selftest,
